@@ -1,6 +1,7 @@
 """C10 - server property; model coq/srv/SrvModel.v, acceptor coq/srv/Accept.v (projection "c10"),
 harness harness/conc (family "c10"), driver vlib/srvlib.py."""
 from . import srvlib
+from . import clilib
 
 TRUSTED = ["sync.Mutex critical sections are atomic and sequentially consistent (one model label per critical section)",
            "sync.WaitGroup, x/sync/semaphore.Weighted (FIFO, cancelled contexts fail), context cancellation, buffered channels: "
@@ -12,11 +13,30 @@ ASSUMPTIONS = ["the peer keeps receiving (Send never blocks for ever)", "handler
 
 
 def run(ctx, res):
+    if ctx.get("replay"):
+        import json
+        with open(ctx["replay"]) as f:
+            fam = json.load(f).get("family", "c10")
+        if str(fam).startswith("cli:"):
+            return clilib.run_family(ctx, res, "cli:c10")
+        return srvlib.run_family(ctx, res, "c10")
+    # the server's side of the channel ...
     srvlib.run_family(ctx, res, "c10")
+    ev, dn, samples, extra = res.evaluations, res.distinct_nontrivial, list(res.samples or []), dict(res.extra)
+    # ... and the client's side (family cli:c10 of the client harness, client model coq/cli/CliModel.v)
+    clilib.run_family(ctx, res, "cli:c10", n_quick=2000, n_thorough=40000)
+    res.extra = dict(server_side=extra, client_side=dict(res.extra))
+    res.evaluations += ev
+    res.distinct_nontrivial += dn
+    res.samples = samples[:1] + list(res.samples or [])[:1]
     res.rule = ("scenario = seeded history of environment actions (records fed: single/batch, calls, notifications, each "
                 "single-defect invalid member, reply-shaped members, non-JSON; handler completions with results/errors; "
                 "CancelRequest, Stop, Notify/Callback, context ends, Recv errors, Send failures, restart) interleaved with "
                 "releases of goroutines parked at the verif scheduling points (fifo = quiescent stepping, random = seeded "
                 "schedule); family 'c10' weights the actions towards this property; every log is replayed through the Coq server "
                 "model (projection 'c10') and judged by the property monitors; non-trivial = distinct log satisfying the family's "
-                "rule (srvlib.nontrivial)")
+                "rule (srvlib.nontrivial); client side: family cli:c10 of the client harness (operations, peer replies and "
+                "requests, cancels, deadlines, Close, Recv errors, Send faults at individual Send calls) on the same "
+                "instrumented channel, logs replayed through the Coq client model; the channel's discipline monitors (two "
+                "Sends / two Recvs in progress, Send or Close without the owner's mutex, Send overlapping Close, Close count, "
+                "complete JSON-RPC messages) judge both sides")
